@@ -33,6 +33,7 @@ def run(ctx) -> None:
     rep.rule("C17.R2", "wait_for versions are recorded from the pre-step snapshot", floor=2)
     rep.rule("C17.R3", "readiness includes the wait check; ready list passes the producer-first deferral", floor=3)
     rep.rule("C17.R4", "every production of an emit output (and every first production) advances the version", floor=3)
+    rep.rule("C17.R5", "every completion of an emit-capable node returns its signals: each normal return of its executor comes from an emit-completing function", floor=7)
 
     # ---- R1 ---------------------------------------------------------------------
     w = db.func("runners._shared.helpers._wait_for_satisfied")
@@ -159,11 +160,74 @@ def run(ctx) -> None:
         ok = bool(stores) and all(any(d in dom.get(s, set()) for d in newdefs) for s in stores)
         rep.add("C17.R4", f"{uv.qname}:newness-before-store", ok, uv.loc(), "'is the name new' is sampled before the value is stored" if ok else "'is the name new' is sampled after the store (always false)")
 
+    # ---- R5 ---------------------------------------------------------------------
+    check_completions_emit(ctx, "C17.R5")
+
+
+def check_completions_emit(ctx, rule: str) -> None:
+    """Executors of node kinds that can declare ``emit=`` (function, route, if/else, interrupt nodes):
+    every value they return is built by a function that stores the sentinel for each emit output
+    (directly, or by returning another such function's result)."""
+    db, rep = ctx.db, ctx.rep
+    direct = set()
+    for f in db.all_funcs():
+        for n in walk_local(f.node):
+            if isinstance(n, ast.Assign) and isinstance(n.value, ast.Name) and n.value.id == "_EMIT_SENTINEL" and any(isinstance(t, ast.Subscript) for t in n.targets):
+                lp = enclosing(n, (ast.For,))
+                if lp is not None and ("emit" in src(lp.iter) or "outputs" in src(lp.iter)):
+                    direct.add(f)
+    if len(direct) < 2:
+        raise AnalysisError("emit writers not recognised")
+    memo: dict[str, tuple[bool, str]] = {}
+
+    def completes(f, depth=0) -> tuple[bool, str]:
+        """every normal return of f yields an emit-completed mapping"""
+        if f in direct:
+            return True, f"{f.name} stores the sentinel for every emit output"
+        if f.qname in memo:
+            return memo[f.qname]
+        memo[f.qname] = (True, "recursive")
+        cfg = ctx.cfg(f)
+        rd = reaching_defs(cfg)
+        rets = [n for n in cfg.nodes if n.kind == "stmt" and isinstance(n.ast, ast.Return)]
+        res = (bool(rets), "no return")
+        for r in rets:
+            vals = [r.ast.value]
+            if isinstance(r.ast.value, ast.Name):
+                vals = [v for d, v in defs_reaching(cfg, rd, r, r.ast.value.id)]
+            for v in vals:
+                if isinstance(v, ast.Await):
+                    v = v.value
+                good = False
+                if isinstance(v, ast.Call) and depth < 5:
+                    cals = [c.func for c in db.resolve_call(v, f) if c.func is not None]
+                    good = bool(cals) and all(completes(g, depth + 1)[0] for g in cals)
+                if not good:
+                    res = (False, f"line {r.lineno}: returns '{src(r.ast.value)[:60] if r.ast.value is not None else None}' which is not the result of an emit-completing function")
+        memo[f.qname] = res
+        return res
+
+    n = 0
+    for ci in db.classes.values():
+        if ".executors." not in ci.module.name or "GraphNode" in ci.name:
+            continue
+        call = ci.methods.get("__call__")
+        if call is None:
+            continue
+        n += 1
+        ok, why = completes(call)
+        rep.add(rule, f"{call.qname}:returns-emit-completed", ok, call.loc(), "every normal return is emit-completed" if ok else f"a completion of the node does not produce its emit signals ({why}): a waiter on the signal never becomes ready although its producer completed")
+    if n < 7:
+        raise AnalysisError(f"only {n} emit-capable executors found")
+
 
 HP = "src/hypergraph/runners/_shared/helpers.py"
 TY = "src/hypergraph/runners/_shared/types.py"
 SS = "src/hypergraph/runners/sync/superstep.py"
 VARIANTS = [
+    Variant("ifelse-returns-empty", "src/hypergraph/runners/_shared/gate_execution.py", sub_first(r"    return wrap_outputs\(node, None\)", "    return {}"), {"C17.R5"}),
+    Variant("interrupt-resume-no-signal", "src/hypergraph/runners/async_/executors/interrupt_node.py", sub_first(r"            return _add_emit_sentinels\(result, node\)", "            return result"), {"C17.R5"}),
+    Variant("twin-function-executor-temp", "src/hypergraph/runners/sync/executors/function_node.py", replace_once("        return wrap_outputs(node, result)", "        wrapped = wrap_outputs(node, result)\n        return wrapped"), set()),
     Variant("fresh-lt-instead-of-lte", HP, replace_once("            if current_version <= consumed_version:\n                return False", "            if current_version < consumed_version:\n                return False"), {"C17.R1"}),
     Variant("fresh-twin-not-gt", HP, replace_once("            if current_version <= consumed_version:\n                return False", "            if not current_version > consumed_version:\n                return False"), set()),
     Variant("wait-no-existence", HP, replace_once("        if name not in state.values:\n            return False\n        # On re-execution, check freshness", "        # On re-execution, check freshness"), {"C17.R1"}),
